@@ -46,10 +46,7 @@ def run_corpus(descs, seed0, n_random=3, patch_unknown=0.0, timeout=90, total_ti
     refevm.driver()  # build the reference driver once, before forking
     if with_model:
         l2tie.sym_driver()
-    # (the mini-SEVM model starts from empty storage: a scenario whose initial storage is an input has no model leg)
-    tasks = [(seed0 + i, d, n_random, patch_unknown,
-              with_model and not d.get('symbolic_storage') and (d.get('profile') in MODEL_PROFILES or str(d.get('profile')).startswith('corpus:')))
-             for i, d in enumerate(descs)]
+    tasks = [(seed0 + i, d, n_random, patch_unknown, with_model and not d.get('symbolic_storage') and (d.get('profile') in MODEL_PROFILES or str(d.get('profile')).startswith('corpus:'))) for i, d in enumerate(descs)]
     out = pool.run_tasks(_worker, tasks, timeout=timeout, total_timeout=total_timeout)
     return [(d, st, val) for d, (st, val) in zip(descs, out)]
 
